@@ -70,6 +70,8 @@ type FuncContract struct {
 	Ghosts       []GhostLoopVar // function-level ghost variables
 	SingleTx     bool           // single_transaction: all database writes happen inside exactly one walletdb.Update
 	GhostRets    []GhostLoopVar // ghostret $v := e: ghost statement executed at every return (results are in scope)
+	yieldInline  bool           // has yield invariants: inlined unless it also serves a property (props)
+	CallsArg     int            // calls-arg N (stored as N+1; 0 = none)
 	Seq          bool           // the function value is a sequence (iter.Seq/Seq2): calling it on a loop body is a loop
 	Yields       []Clause       // what is known about the values a sequence hands to the loop body ($y0, $y1, $k)
 	YieldInvs    []Clause       // on a synthetic range-over-func body: loop invariants over the enclosing function's variables and $k
@@ -150,7 +152,7 @@ var labelRe = regexp.MustCompile(`^([A-Za-z][A-Za-z0-9_\-]*):(?:[^:]|$)`)
 var clauseKW = map[string]bool{
 	"requires": true, "ensures": true, "modifies": true, "loop": true, "assume-only": true, "pure": true,
 	"inline": true, "assert": true, "assume": true, "props": true, "noframe": true, "fresh": true, "panics_if": true, "ghost": true,
-	"durable": true, "crashstates": true, "havoc": true, "guards": true, "invariant": true, "unblocks_on": true, "ghostset": true, "ghostret": true, "single_transaction": true, "seq": true, "yields": true, "yield": true,
+	"durable": true, "crashstates": true, "havoc": true, "guards": true, "invariant": true, "unblocks_on": true, "ghostset": true, "ghostret": true, "single_transaction": true, "seq": true, "yields": true, "yield": true, "calls-arg": true,
 }
 var topKW = map[string]bool{
 	"func": true, "define": true, "abstract": true, "sort": true, "axiom": true, "ghost": true, "package": true, "ignore": true, "implements": true,
@@ -510,6 +512,15 @@ func ParseSpecFile(path string, pkgPath string) (*SpecFile, error) {
 				return nil, fmt.Errorf("%s:%d: %v", path, it.line, err)
 			}
 			cur.Ghosts = append(cur.Ghosts, GhostLoopVar{Name: n, Type: strings.TrimSpace(r2[:i]), Init: ini})
+		case "calls-arg":
+			// calls-arg N: the function calls its N-th argument (a function literal of the caller) any number of
+			// times and has no other effect: at the call site the literal is treated as the body of a loop
+			n, err := strconv.Atoi(strings.TrimSpace(rest))
+			if err != nil {
+				return nil, fmt.Errorf("%s:%d: calls-arg wants an argument index", path, it.line)
+			}
+			cur.CallsArg = n + 1
+			cur.AssumeOnly = true
 		case "seq":
 			cur.Seq = true
 			cur.AssumeOnly = true
@@ -530,7 +541,7 @@ func ParseSpecFile(path string, pkgPath string) (*SpecFile, error) {
 				return nil, err
 			}
 			cur.YieldInvs = append(cur.YieldInvs, cl)
-			cur.Inline = true
+			cur.yieldInline = true
 		case "ghostret":
 			n, r2 := firstWord(rest)
 			if !strings.HasPrefix(n, "$") || !strings.HasPrefix(strings.TrimSpace(r2), ":=") {
